@@ -13,5 +13,5 @@ CONSTANTS
   ImplBug = "none"
   ObjDefect = "stale-rdlength"
 SPECIFICATION MCSpec
-INVARIANTS Acceptable Coherent FlagSound CursorSound Effect
+INVARIANTS Acceptable Coherent FlagSound CursorSound CacheSound Effect
 CHECK_DEADLOCK FALSE
